@@ -40,7 +40,7 @@ type Item struct {
 }
 
 type sframe struct {
-	phantom bool
+	phantom  bool
 	hasBelow bool
 	belowNE  int
 	items    []Item
@@ -113,17 +113,17 @@ type Interp struct {
 	NodeT    types.Type
 	findings map[string]Finding
 	// summaries: rule|belowNE|depth0 -> result
-	sums       map[string]*ruleSum
-	inProgress map[string]bool
-	changed    bool
-	iter       int
-	sumIter    map[string]int
-	inline     []string
+	sums        map[string]*ruleSum
+	inProgress  map[string]bool
+	changed     bool
+	iter        int
+	sumIter     map[string]int
+	inline      []string
 	Obligations int // asserting pops/peeks checked
 	RuleEffects map[string]string
 	PopSlots    map[token.Pos]Slot // types seen by each pop (by position of the pop call)
-	curRule    string
-	Debug      bool
+	curRule     string
+	Debug       bool
 }
 
 type ruleSum struct {
